@@ -21,6 +21,8 @@ Operations (JSON objects):
     {"fn": "from_hex", "arg": "E0 7F 7F", "want": {...}}
     {"fn": "bytes", "type": t, "attrs": {...}, "want": [..]}     Message(t, **attrs).bytes()
     {"fn": "from_str", "arg": "note_on ...", "want": {...}}
+    {"fn": "ctor" | "from_dict" | "copy", "type": t, "attrs": {...}, "want": {...}}   (then every attribute is
+                                                       re-assigned and the message encoded)
     {"fn": "str", "type": t, "attrs": {...}, "want": "..."}
     {"fn": "parse_all", "arg": [...], "want": [{...}, ...]}
     {"fn": "meta_bytes", "type": t, "attrs": {...}, "want": [..]}
@@ -64,6 +66,20 @@ def do(mido, op):
             return norm(mido.Message(op['type'], **a).bytes())
         if fn == 'from_str':
             return norm(mido.Message.from_str(op['arg']))
+        if fn in ('ctor', 'from_dict', 'copy'):
+            a = {k: tuple(v) if isinstance(v, list) else v for k, v in op['attrs'].items()}
+            if fn == 'ctor':
+                m = mido.Message(op['type'], **a)
+            elif fn == 'from_dict':
+                m = mido.Message.from_dict({'type': op['type'], **a})
+            else:
+                m = mido.Message(op['type']).copy(**a)
+            # a usable message: every attribute readable and assignable, encodable
+            for k, v in list(vars(m).items()):
+                if k != 'type':
+                    setattr(m, k, v)
+            m.bytes()
+            return norm(m)
         if fn == 'str':
             a = {k: tuple(v) if isinstance(v, list) else v for k, v in op['attrs'].items()}
             return str(mido.Message(op['type'], **a))
